@@ -185,7 +185,18 @@ def build(index, rng, spec=None):
     xops = []
     if rng.random() < 0.5:
         xops.append({"op": "postpone", "k": rng.randint(1, 3)})
-    xops += spec["setup"] + [mark("mark+"), spec["op"], mark("mark-")]
+    xops += spec["setup"]
+    resources = dict(spec["resources"])
+    if rng.random() < 0.2:
+        # the operation follows, in the same turn, a postponement that was cut short by a signal
+        # (an until-block whose notification holds already is interrupted at its first break
+        # point): whatever that postponement left behind in the kernel must not serve as the
+        # operation's own turn
+        resources["PREF"] = {"kind": "flag", "init": True}
+        xops.append({"op": "scope", "label": "PRE", "children": [],
+                     "until": {"k": "flag", "n": "PREF"},
+                     "body": [{"op": "postpone", "k": rng.randint(1, 2)}]})
+    xops += [mark("mark+"), spec["op"], mark("mark-")]
     actors.append({"name": "x", "ops": xops})
     for i in range(rng.randint(1, 4)):
         ops = []
@@ -205,7 +216,7 @@ def build(index, rng, spec=None):
     rng.shuffle(order)
     actors = [actors[i] for i in order]
     return {"property": ID, "row": spec["name"], "between": list(spec["between"]),
-            "scenario": {"resources": dict(spec["resources"]), "actors": actors},
+            "scenario": {"resources": resources, "actors": actors},
             "plan": [], "config": {"waitq": rng.choice(["heap", "sd"])}}
 
 
